@@ -29,7 +29,9 @@ func CString(s string) *int8 {
 
 func CBytes(b []byte) *int8 {
 	p := c.Malloc(uintptr(len(b)))
-	c.Memcpy(p, unsafe.Pointer(&b[0]), uintptr(len(b)))
+	if len(b) > 0 {
+		c.Memcpy(p, unsafe.Pointer(&b[0]), uintptr(len(b)))
+	}
 	return (*int8)(p)
 }
 
